@@ -54,7 +54,7 @@ Definition lifecycle_ok (s : server) : Prop :=
 
 (* admission: source is a configured peer and, when that peer has a local address, the
    destination equals it *)
-Definition spec_admit (m : amap) (local_of : addr -> option addr) (src dst : addr) (dst_ok : bool) : bool :=
+Definition spec_accepts (m : amap) (local_of : addr -> option addr) (src dst : addr) (dst_ok : bool) : bool :=
   match m src with
   | None => false
   | Some _ => match local_of src with
